@@ -678,6 +678,49 @@ def code_constants(base):
     return tail, kw
 
 
+def to_str_fact(base):
+    """behavioural fact about utils.to_str, the function that turns names delivered as bytes into text before they are
+    validated: identity on str; on bytes exactly bytes.decode("utf-8", "surrogateescape") -- every undecodable byte is
+    kept as one (lone surrogate) code point, nothing is dropped, merged or replaced.  Tested on a battery that puts
+    every single byte value and a set of invalid / truncated / overlong / surrogate sequences at every position of
+    several names."""
+    import flow.record.packer as pk
+    import flow.record.utils as utils
+    f = utils.to_str
+    if getattr(base, "to_str", None) is not f or getattr(pk, "to_str", None) is not f:
+        raise Unsupported("base.to_str / packer.to_str is not utils.to_str")
+    # RecordDescriptor.__init__ and the packer's descriptor branch must pass names through it
+    init = _fn_ast(base.RecordDescriptor.__init__)
+    if not any(_call_name(c) == "to_str" for c in _calls(init)):
+        raise Unsupported("RecordDescriptor.__init__ no longer converts names with to_str")
+    ok = True
+    for s_ in ("", "a", "abc/def", "\u00e9", "a\n", "\udcff", "\U0001d41a", "x" * 300):
+        r = f(s_)
+        ok = ok and isinstance(r, str) and r == s_
+    seqs = [bytes([b]) for b in range(256)] + [
+        b"\xc3", b"\xc3\x28", b"\xc3\xa9", b"\xe2\x82", b"\xe2\x82\xac", b"\xed\xa0\x80", b"\xf0\x9f\x98", b"\xf0\x9f\x98\x80",
+        b"\xc0\xaf", b"\xf8\x88\x80\x80\x80", b"\xff\xfe", b"\xfe\xff", b"\x80\x80", b"\xef\xbb\xbf", b"\xf4\x90\x80\x80"]
+    hosts = [b"", b"evil/type", b"payload", b"string", b"net.ipaddress"]
+    for h in hosts:
+        for q in seqs:
+            for pos in sorted({0, len(h) // 2, len(h)}) if len(q) == 1 else range(len(h) + 1):
+                b = h[:pos] + q + h[pos:]
+                try:
+                    r = f(b)
+                except Exception:
+                    ok = False
+                    continue
+                want = b.decode("utf-8", "surrogateescape")
+                if not (isinstance(r, str) and r == want):
+                    ok = False
+                # the two properties the Coq lemma assumes of the decoder
+                if all(x < 128 for x in b):
+                    ok = ok and r == b.decode("ascii")
+                else:
+                    ok = ok and isinstance(r, str) and any(ord(ch) >= 128 for ch in r)
+    return bool(ok)
+
+
 # ---------------------------------------------------------------------------------------------
 
 def gen_names():
@@ -739,7 +782,8 @@ def gen_names():
     out += "  nf_init_tail := %s;\n" % cstrN(tail)
     out += "  nf_kw_args := %s;\n" % cstrN(kwc["args"])
     out += "  nf_kw_init := %s;\n" % cstrN(kwc["init_code"])
-    out += "  nf_kw_unpack := %s\n" % cstrN(kwc["unpack_code"])
+    out += "  nf_kw_unpack := %s;\n" % cstrN(kwc["unpack_code"])
+    out += "  nf_to_str_surrogateescape := %s\n" % cbool(to_str_fact(base))
     out += "|}.\n"
     write_if_changed(GEN / "Gen_names.v", out)
 
